@@ -12,7 +12,8 @@ import pbt
 from common import Ctx, Failure, main_wrapper
 
 PID = "C01"
-RULE = ("Hypothesis-generated (config, exec kind, path, argv, envp/environ, scripted ret/errno | real exec); "
+RULE = ("Hypothesis-generated (config incl. a format naming every data source, process environment incl. NULL and > limit, "
+        "history of 1..3 execv/execve calls in one process each with path, argv, envp, scripted ret/errno | real exec); "
         "non-trivial = config is not the default/absent one AND (argv or envp shape is not a short plain vector "
         "OR the exec really succeeds); distinct by (config kind, has filter chain, argv class, envp class, errno, real)")
 
@@ -20,21 +21,41 @@ ERRNOS = list(range(0, 134))
 RETS = [-1, 0, 1, -2147483648, 2147483647]
 
 
+ALL_DS_FORMAT = b"".join(b"%{" + n.encode() + (b":1" if n in ("cgroup",) else (b":HOME" if n == "env" else b"")) + b"}|"
+                         for n in gen.ALL_SOURCES)
+
+
 def strategy():
     @st.composite
-    def case(draw):
-        cfg = draw(gen.st_config('@OUT@'))
+    def call(draw, real_allowed):
         kind = draw(st.sampled_from(["v", "e"]))
-        real = draw(st.sampled_from([False] * 4 + [True]))
+        real = real_allowed and draw(st.sampled_from([False] * 4 + [True]))
         big = not real
         argv = draw(gen.st_vector(big=big))
         envp = draw(gen.st_envp(big=big)) if kind == "e" else []
-        environ = draw(st.one_of(st.just("keep"), gen.st_envp(big=False).filter(lambda v: v is not None or True)))
         path = drv.ARGDUMP.encode() if real else draw(gen.st_path(big=big))
         ret = draw(st.sampled_from(RETS))
         err = draw(st.sampled_from(ERRNOS))
-        return {"cfg": cfg, "kind": kind, "real": real, "argv": argv, "envp": envp, "environ": environ,
-                "path": path, "ret": ret, "err": err}
+        return {"kind": kind, "real": real, "argv": argv, "envp": envp, "path": path, "ret": ret, "err": err}
+
+    @st.composite
+    def case(draw):
+        cfg = draw(gen.st_config("@OUT@"))
+        if cfg["kind"] not in ("absent", "dir", "empty", "garbage") and draw(st.sampled_from([False, False, True])):
+            # every data source at once: whatever a data source does to caller-visible state shows up
+            opts = [(k, v) for k, v in cfg["opts"] if k != b"message_format"] + [(b"message_format", ALL_DS_FORMAT)]
+            cfg = dict(cfg, opts=opts, ini=gen.render_ini(opts), alldatasources=True)
+        envkind = draw(st.sampled_from(["keep", "small", "small", "null", "huge"]))
+        if envkind == "small":
+            environ = draw(gen.st_envp(big=False))
+        elif envkind == "huge":
+            n = draw(st.sampled_from([300, 2100, 5000]))
+            environ = [b"HOME=/root", b"BIG=" + b"b" * n] + [b"V%d=" % i + b"x" * 100 for i in range(draw(st.integers(0, 30)))]
+        else:
+            environ = None if envkind == "null" else "keep"
+        ncalls = draw(st.sampled_from([1, 1, 2, 3]))
+        calls = [draw(call(i == ncalls - 1)) for i in range(ncalls)]
+        return {"cfg": cfg, "environ": environ, "calls": calls}
     return case()
 
 
@@ -44,13 +65,14 @@ def scenario(o, c):
     ops += gen.cfg_ops(c["cfg"], o)
     if c["environ"] != "keep":
         ops.append(drv.op_env(drv.vec_list(c["environ"])) if c["environ"] is not None else drv.op_env(None))
-    ops.append(drv.op_exec(c["kind"], c["path"], c["argv"], c["envp"], ret=c["ret"], err=c["err"], real=c["real"]))
-    ops += [drv.op("L"), drv.op("G")]
+    for k in c["calls"]:
+        ops.append(drv.op_exec(k["kind"], k["path"], k["argv"], k["envp"], ret=k["ret"], err=k["err"], real=k["real"]))
+        ops += [drv.op("L"), drv.op("G")]
     return ops
 
 
 def evaluate(d, c):
-    """Raises Failure when the property is violated for case c."""
+    """Raises Failure when the property is violated for case c (a short history of calls in one process)."""
     res = d.scenario(scenario(d.out, c))
     reports = d.sanitizer_reports()
     obs = {"result": res.describe(), "errors": res.errors()}
@@ -59,85 +81,96 @@ def evaluate(d, c):
     if res.signaled or (res.exitcode not in (0,)):
         obs["sanitizer"] = [r[:3000] for r in reports[:2]]
         raise Failure("process died inside the wrapped call", obs, key="crash")
-    R = res.of("R")
-    if len(R) != 1 or int(R[0].f[1]) != 1:
-        raise Failure("real exec reached %d times (expected exactly once)" % len(R), obs, key="count")
-    flags = int(R[0].f[2])
-    need = {1: "same function kind", 4: "path content", 16: "argv content", 64: "envp/environ content",
-            128: "caller memory intact at real-exec entry"}
-    bad = [n for bit, n in need.items() if not flags & bit]
-    if bad:
-        obs["flags"] = flags
-        raise Failure("real exec received altered arguments: " + ", ".join(bad), obs, key="args")
-    at_entry = R[0].f[3]
-    if c["real"]:
-        A = res.of("A")
-        if len(A) != 1:
-            raise Failure("real exec did not start the target program", obs, key="real-missing")
-        na, ne = int(A[0].f[0]), int(A[0].f[1])
-        got_argv = A[0].f[2:2 + na]
-        got_env = A[0].f[2 + na:2 + na + ne]
-        want_argv = drv.vec_list(c["argv"]) or []
-        if c["kind"] == "e":
-            want_env = drv.vec_list(c["envp"]) or []
-        else:
-            want_env = None if c["environ"] == "keep" else (drv.vec_list(c["environ"]) or [])
-        if got_argv != want_argv and not (want_argv == [] and got_argv == [b""]):
-            raise Failure("target program received a different argv", {"got": got_argv, "want": want_argv}, key="real-argv")
-        if want_env is not None and got_env != want_env:
-            raise Failure("target program received a different environment", {"got": got_env, "want": want_env}, key="real-env")
-        # anything arriving at a stream/datagram sink after the image was replaced was not handed over before the exec
-        late = {e.f[0].decode(): len(e.f[1]) for e in res.of("L") if len(e.f[1])}
-        if late:
-            raise Failure("log data reached the sink only after the real exec started", {"late_bytes_by_fd": late}, key="late")
-        return at_entry
-    T = res.of("T")
-    if len(T) != 1:
-        raise Failure("wrapped call did not return to the caller", obs, key="noreturn")
-    ret, err, intact = int(T[0].f[0]), int(T[0].f[1]), int(T[0].f[2])
-    if ret != c["ret"] or err != c["err"]:
-        raise Failure("caller saw ret/errno (%d,%d), real exec returned (%d,%d)" % (ret, err, c["ret"], c["err"]),
-                      obs, key="ret")
-    if not intact:
-        raise Failure("caller's vectors/environment modified after return", obs, key="memory")
-    after = T[0].f[4]
-    G = res.of("G")
-    final = None
-    if G:
-        dump = drv.parse_dump(G[-1])
-        # compare sizes at entry with final (post-flush) sizes
-        ent = drv.parse_sinkstate(at_entry)
+    Rs, Ts, Gs = res.of("R"), res.of("T"), res.of("G")
+    if len(Rs) != len(c["calls"]):
+        raise Failure("real exec reached %d times for %d calls" % (len(Rs), len(c["calls"])), obs, key="count")
+    for i, k in enumerate(c["calls"]):
+        R = Rs[i]
+        obs["call"] = i
+        if int(R.f[1]) != 1:
+            raise Failure("real exec reached %s times for one call" % R.f[1].decode(), obs, key="count")
+        flags = int(R.f[2])
+        need = {1: "same function kind", 4: "path content", 16: "argv content", 64: "envp/environ content",
+                128: "caller memory intact at real-exec entry"}
+        bad = [n for bit, n in need.items() if not flags & bit]
+        if bad:
+            obs["flags"] = flags
+            raise Failure("real exec received altered arguments: " + ", ".join(bad), obs, key="args")
+        at_entry = R.f[3]
+        if k["real"]:
+            A = res.of("A")
+            if len(A) != 1:
+                raise Failure("real exec did not start the target program", obs, key="real-missing")
+            na, ne = int(A[0].f[0]), int(A[0].f[1])
+            got_argv = A[0].f[2:2 + na]
+            got_env = A[0].f[2 + na:2 + na + ne]
+            want_argv = drv.vec_list(k["argv"]) or []
+            if k["kind"] == "e":
+                want_env = drv.vec_list(k["envp"]) or []
+            else:
+                want_env = None if c["environ"] == "keep" else (drv.vec_list(c["environ"]) or [])
+            if got_argv != want_argv and not (want_argv == [] and got_argv == [b""]):
+                raise Failure("target program received a different argv", {"got": got_argv, "want": want_argv}, key="real-argv")
+            if want_env is not None and got_env != want_env:
+                raise Failure("target program received a different environment",
+                              {"got": [e[:80] for e in got_env[:20]], "want": [e[:80] for e in want_env[:20]]}, key="real-env")
+            late = {e.f[0].decode(): len(e.f[1]) for e in res.of("L") if len(e.f[1])}
+            if late:
+                raise Failure("log data reached the sink only after the real exec started", {"late_bytes_by_fd": late}, key="late")
+            continue
+        if i >= len(Ts):
+            raise Failure("wrapped call did not return to the caller", obs, key="noreturn")
+        T = Ts[i]
+        ret, err, intact = int(T.f[0]), int(T.f[1]), int(T.f[2])
+        if ret != k["ret"] or err != k["err"]:
+            raise Failure("caller saw ret/errno (%d,%d), real exec returned (%d,%d)" % (ret, err, k["ret"], k["err"]),
+                          obs, key="ret")
+        if not intact:
+            raise Failure("caller's vectors/environment modified after return", obs, key="memory")
+        after = T.f[4]
+        if after != at_entry:
+            raise Failure("sink content changed between real-exec entry and return", {"entry": at_entry, "after": after}, key="order")
+        # the dump right after this call (stdio flushed): nothing may have been held back
+        dump = drv.parse_dump(Gs[i])
+        ent = {n: v.split(":")[0] for n, v in drv.parse_sinkstate(at_entry).items()}
         fin = {}
         for name, (typ, fd, content) in dump.items():
-            if typ == 1:
-                fin[name] = str(len(content))
-            elif typ == 3:
-                fin[name] = str(len(content))
-            else:
-                fin[name] = "absent" if content is None else str(len(content))
-        ent2 = {k: v.split(":")[0] for k, v in ent.items()}
-        if ent2 != fin:
+            fin[name] = "absent" if content is None else str(len(content))
+        if ent != fin:
             raise Failure("sink content changed after the real exec was entered (logging not finished before exec)",
-                          {"at_real_exec_entry": ent2, "final": fin}, key="order")
-    if after != at_entry:
-        # state text includes hashes for files
-        raise Failure("sink content changed between real-exec entry and return", {"entry": at_entry, "after": after}, key="order")
-    return at_entry
+                          {"at_real_exec_entry": ent, "after_flush": fin}, key="order")
 
 
 def classify(c):
     cfg = c["cfg"]
     nondefault = cfg["kind"] not in ("absent", "empty", "default")
     haschain = any(k == b"filter_chain" for k, _ in cfg["opts"])
-    ac, ec = gen.vec_class(c["argv"]), gen.vec_class(c["envp"])
-    nontriv = nondefault and (ac != "plain" or ec not in ("plain", "empty") or c["real"])
-    key = (cfg["kind"], haschain, ac, ec, c["err"], c["real"]) if nontriv else None
-    return key, ["cfg:" + cfg["kind"], "argv:" + ac, "envp:" + ec, "real" if c["real"] else "scripted", "kind:" + c["kind"]]
+    shapes = []
+    anyreal = False
+    nontriv_shape = False
+    for k in c["calls"]:
+        ac, ec = gen.vec_class(k["argv"]), gen.vec_class(k["envp"])
+        shapes.append((k["kind"], ac, ec, k["real"]))
+        anyreal |= k["real"]
+        nontriv_shape |= ac != "plain" or ec not in ("plain", "empty") or k["real"]
+    envk = "keep" if c["environ"] == "keep" else ("null" if c["environ"] is None else
+                                                  ("huge" if sum(len(e) for e in c["environ"]) > 255 else "small"))
+    nontriv = nondefault and (nontriv_shape or len(c["calls"]) > 1)
+    key = (cfg["kind"], haschain, tuple(shapes), envk, c["calls"][-1]["err"]) if nontriv else None
+    cls = ["cfg:" + cfg["kind"], "calls:%d" % len(c["calls"]), "environ:" + envk, "real" if anyreal else "scripted"]
+    cls += ["argv:" + sh[1] for sh in shapes[:1]] + ["envp:" + sh[2] for sh in shapes[:1]]
+    if cfg.get("alldatasources"):
+        cls.append("format:all-data-sources")
+    if len({sh[0] for sh in shapes}) > 1:
+        cls.append("execv+execve-mixed")
+    return key, cls
 
 
 def sample(c):
     d = dict(c)
     d["cfg"] = c["cfg"]["ini"]
+    if isinstance(c["environ"], list):
+        d["environ"] = [e[:60] for e in c["environ"][:12]]
     return d
 
 
